@@ -226,7 +226,7 @@ package eval
 //@   ensures [C15] cleared: pe.cache.cache != nil ==> (forall k string :: {lruHas(pe.cache.cache)[k]} !lruHas(pe.cache.cache)[k])
 
 //@ func (*PolicyEngine).insertNetworkPolicy
-//@   requires pe != nil && np != nil && pe.cache != nil && pe.netpolsMap != nil
+//@   requires pe != nil && np != nil && pe.cache != nil && pe.netpolsMap != nil && (pe.exposureAnalysisFlag ==> (pe.representativePeersMap != nil && repPeersOK(pe)))
 //@   requires forall k string :: {k in pe.netpolsMap} k in pe.netpolsMap ==> pe.netpolsMap[k] != nil
 //@   modifies *
 //@   modifies PolicyEngine.cache { r | false }, evalCache.cache { r | false }
